@@ -613,11 +613,17 @@ impl Model {
 
     /// thread-based variant: at a quiescent point (read() returned, every helper blocked or done)
     /// the input has been delivered completely but the child's stdin is still open
-    fn check_eof_late_now(&self) {
+    fn check_eof_late_now(&self, threads: bool) {
         if let Some(p) = self.pin {
             let pp = &sim().k.pipes[p];
             if !self.input.is_empty() && pp.hist.len() >= self.input.len() && pp.w_open && pp.r_open {
-                violate("eof_late", "eof_late/at=read_returned_helpers_blocked".into(), format!("all {} input bytes were delivered, read() has returned and every helper thread is blocked, but the child's stdin is still open", self.input.len()));
+                if threads {
+                    violate("eof_late", "eof_late/at=read_returned_helpers_blocked".into(), format!("all {} input bytes were delivered, read() has returned and every helper thread is blocked, but the child's stdin is still open", self.input.len()));
+                } else {
+                    // the caller has the control back and may do anything next (wait for the child,
+                    // say): a child that reads to end-of-file before it finishes is left hanging
+                    violate("eof_late", "eof_late/at=read_returned".into(), format!("all {} input bytes were delivered and read() has returned to the caller, but the child's stdin is still open", self.input.len()));
+                }
             }
         }
     }
@@ -838,7 +844,9 @@ fn drive_reads<C: CommLike>(m: &mut Model, mut comm: C, reads: &[ReadStep], faul
                 if m.thread_variant {
                     // quiescence for the thread-based variant: every helper is blocked or done
                     crate::simrt::settle();
-                    m.check_eof_late_now();
+                    m.check_eof_late_now(true);
+                } else if sim().poisoned.is_none() {
+                    m.check_eof_late_now(false);
                 }
                 if sim().violations.len() > nviol {
                     // a violated exchange is not driven any further
